@@ -219,6 +219,113 @@ func (r *Run) decodeStructs() (root *types.Named, all []*types.Named) {
 	return root, all
 }
 
+// decodeRoleNames: the names under which the decode structs are reported, by the place of the
+// answer they are decoded from (the first JSON path that reaches them) — obligations and known
+// findings keep their key when a struct is renamed.
+var decodeRoleNames = map[string]string{
+	"$":                                 "IntrospectionQueryResult",
+	"$.__schema":                        "IntrospectionQuerySchema",
+	"$.__schema.queryType":              "IntrospectionQueryRootType",
+	"$.__schema.mutationType":           "IntrospectionQueryRootType",
+	"$.__schema.subscriptionType":       "IntrospectionQueryRootType",
+	"$.__schema.types":                  "IntrospectionQueryFullType",
+	"$.__schema.types.fields":           "IntrospectionQueryFullTypeField",
+	"$.__schema.types.enumValues":       "IntrospectionQueryEnumDefinition",
+	"$.__schema.types.inputFields":      "IntrospectionInputValue",
+	"$.__schema.directives.args":        "IntrospectionInputValue",
+	"$.__schema.types.fields.args":      "IntrospectionInputValue",
+	"$.__schema.types.interfaces":       "IntrospectionTypeRef",
+	"$.__schema.types.possibleTypes":    "IntrospectionTypeRef",
+	"$.__schema.types.fields.type":      "IntrospectionTypeRef",
+	"$.__schema.types.inputFields.type": "IntrospectionTypeRef",
+	"$.__schema.directives.args.type":   "IntrospectionTypeRef",
+	"$.__schema.directives":             "IntrospectionQueryDirective",
+}
+
+// decodeRoles maps each decode struct to its role name (its Go name when the place it is decoded
+// from has no entry) and to the first JSON path reaching it.
+func (r *Run) decodeRoles() (names map[*types.Named]string, paths map[*types.Named]string) {
+	names, paths = map[*types.Named]string{}, map[*types.Named]string{}
+	root, _ := r.decodeStructs()
+	if root == nil {
+		return
+	}
+	type item struct {
+		nt   *types.Named
+		path string
+	}
+	queue := []item{{root, "$"}}
+	for len(queue) > 0 {
+		it := queue[0]
+		queue = queue[1:]
+		if _, done := paths[it.nt]; done {
+			continue
+		}
+		paths[it.nt] = it.path
+		if n, ok := decodeRoleNames[it.path]; ok {
+			names[it.nt] = n
+		} else {
+			names[it.nt] = it.nt.Obj().Name()
+		}
+		st, ok := it.nt.Underlying().(*types.Struct)
+		if !ok {
+			continue
+		}
+		type kf struct {
+			k string
+			t types.Type
+		}
+		var fs []kf
+		for i := 0; i < st.NumFields(); i++ {
+			k := jsonKey(st.Tag(i))
+			if k == "-" {
+				continue
+			}
+			if k == "" {
+				if !st.Field(i).Embedded() {
+					continue
+				}
+				k = "<" + st.Field(i).Name() + ">"
+			}
+			fs = append(fs, kf{k, st.Field(i).Type()})
+		}
+		sort.Slice(fs, func(i, j int) bool { return fs[i].k < fs[j].k })
+		for _, f := range fs {
+			t := f.t
+			for i := 0; i < 6; i++ {
+				switch x := t.(type) {
+				case *types.Pointer:
+					t = x.Elem()
+				case *types.Slice:
+					t = x.Elem()
+				case *types.Array:
+					t = x.Elem()
+				case *types.Map:
+					t = x.Elem()
+				}
+			}
+			if nt, ok := t.(*types.Named); ok && nt.Obj().Pkg() != nil && nt.Obj().Pkg().Path() == introPkg {
+				if _, isStruct := nt.Underlying().(*types.Struct); isStruct {
+					queue = append(queue, item{nt, it.path + "." + f.k})
+				}
+			}
+		}
+	}
+	return
+}
+
+// directiveNameField: the field the name of a directive of the answer is decoded into (it may
+// be promoted from an embedded struct) and the struct a directive is decoded into.
+func (r *Run) directiveNameField() (*types.Var, *types.Named) {
+	_, paths := r.decodeRoles()
+	for nt, p := range paths {
+		if p == "$.__schema.directives" {
+			return jsonFields(nt.Underlying().(*types.Struct), 0)["name"], nt
+		}
+	}
+	return nil, nil
+}
+
 // jsonFields lists the fields of a decode struct as encoding/json sees them: the fields of an
 // embedded struct without a key of its own are promoted.
 func jsonFields(st *types.Struct, depth int) map[string]*types.Var {
@@ -436,8 +543,12 @@ func ruleDecodedFieldsUsed(r *Run) {
 		return
 	}
 	n := 0
+	roleNames, _ := r.decodeRoles()
 	for _, nt := range decoded {
-		name := nt.Obj().Name()
+		name := roleNames[nt]
+		if name == "" {
+			name = nt.Obj().Name()
+		}
 		st := nt.Underlying().(*types.Struct)
 		for i := 0; i < st.NumFields(); i++ {
 			f := st.Field(i)
@@ -461,7 +572,11 @@ func ruleDecodedFieldsUsed(r *Run) {
 	if pf := r.P.Fn("introspection.parseInputField"); pf != nil && pf.Signature.Params().Len() == 1 {
 		if nt, ok := pf.Signature.Params().At(0).Type().(*types.Named); ok {
 			iv, _ = nt.Underlying().(*types.Struct)
-			ivName = nt.Obj().Name()
+			if rn := roleNames[nt]; rn != "" {
+				ivName = rn
+			} else {
+				ivName = nt.Obj().Name()
+			}
 		}
 	}
 	if iv != nil {
